@@ -101,7 +101,17 @@ func runC20(w *World, p map[string]int) {
 			w.Stat("op.stop")
 			break
 		}
-		switch t.Weighted([]int{8, 2, 4, 4, 3, 2}) {
+		switch t.Weighted([]int{8, 2, 4, 4, 3, 2, 2}) {
+		case 6:
+			// unconfirmed transactions, some announced a second time (the node
+			// does that when a transaction re-enters its pool)
+			w.AnnounceLoose(t)
+			if t.Bool(50) {
+				w.runSteps(t.Int(6))
+				if tx, _ := w.AnnounceAgain(t); tx != nil {
+					w.Stat("probe.unconfirmed_announced_twice")
+				}
+			}
 		case 5:
 			// burst: several task requests back to back while the worker is
 			// not scheduled (queue pressure)
